@@ -2,13 +2,13 @@ package main
 
 // Registry of checks: which harness runs on which configurations per tier.
 
-const nCoreTables = 43
+const nCoreTables = 45
 
 func curlyOnly(tbl int) bool {
-	return tbl == 2 || tbl == 3 || tbl == 6 || tbl == 18 || tbl == 22 || tbl == 28 || tbl == 37
+	return tbl == 2 || tbl == 3 || tbl == 6 || tbl == 18 || tbl == 22 || tbl == 28 || tbl == 37 || tbl == 43
 }
 func hasMedia(tbl int) bool {
-	return tbl == 8 || tbl == 9 || tbl == 32 || tbl == 33 || tbl == 34 || tbl == 40
+	return tbl == 8 || tbl == 9 || tbl == 32 || tbl == 33 || tbl == 34 || tbl == 40 || tbl == 44
 }
 
 var commonAssumptions = []string{
@@ -679,6 +679,14 @@ func properties() map[string]*propDef {
 								}
 							}
 						}
+					}
+				}
+			}
+			if tier != "thorough" {
+				// two changes of the service list at once (Remove next to Add) plus a request: neither change may undo the other
+				for router := 0; router < 2; router++ {
+					for entry := 0; entry < 2; entry++ {
+						out = append(out, item{Harness: "H_C12_sched", Cfg: []int{1, router + 10, entry, 1, 2}, Label: "interleaving exploration with a third thread: Remove(/a) next to Add(/c) and a request to /b, 2 preemptions"})
 					}
 				}
 			}
